@@ -368,6 +368,13 @@ pub fn run(tier: &str) -> Result<Report, String> {
             fs.push(Expr::bin('=', ce("g", vec![x.clone(), y.clone()]), ce("g", vec![Expr::not(x.clone()), y.clone()])));
             fs.push(Expr::bin('|', ce("g", vec![x.clone(), y.clone()]), ce("g", vec![y, x])));
         }
+        // an application nested in a NON-first argument, with the nested symbol occurring again elsewhere
+        fs.push(Expr::bin('&', ce("g", vec![a(), ce("f", vec![b()])]), ce("f", vec![b()])));
+        fs.push(Expr::bin('|', ce("g", vec![ce("f", vec![a()]), ce("f", vec![b()])]), ce("f", vec![a()])));
+        fs.push(ce("g", vec![a(), ce("g", vec![b(), a()])]));
+        fs.push(Expr::bin('^', ce("g", vec![b(), p()]), p()));
+        fs.push(Expr::bin('&', ce("g", vec![a(), Expr::not(ce("f", vec![b()]))]), Expr::not(ce("f", vec![b()]))));
+        fs.push(ce("g", vec![ce("f", vec![a()]), ce("f", vec![a()])]));
         for f in fs {
             // both variables must be mentioned (declared regulators)
             let f = Expr::bin('|', f, Expr::bin('&', a(), Expr::bin('&', b(), Expr::Const(false))));
